@@ -167,6 +167,7 @@ def contradictory(facts):
 
 def make_ctx(eng, facts, usize_bits):
     L = lin.Ctx(usize_bits)
+    L.repr_len = eng.size_of("share_ff::FpRepr", "star_sharks")        # width of a field element encoding, from the ADT
     for f in facts:
         L.add_fact(f)
         # equalities between enum-wrapped lengths: eq(Some(a), Some(b)) == 1  =>  a == b  (used by INV-UNIFORM)
@@ -205,6 +206,17 @@ def discharge(eng, o, usize_bits=64):
                 o.status = True
                 o.why = ("INV-PAIRED (exact): the vector is pushed to exactly on the iterations whose set insertion succeeded "
                          "(both empty before the loop), so the two lengths are equal and the failing branch is infeasible")
+                return True
+        # INV-COUNT: lengths of vectors filled by a loop that ran to completion
+        lens_in_facts = [f[0] for f in facts if Q.contains(f[0], lambda x: x.op == "len" and x.args[0].op == "phi")]
+        eqc = _inv_count(eng, o, lens_in_facts)
+        if eqc:
+            L6 = make_ctx(eng, facts, usize_bits)
+            for (lv, n) in eqc:
+                L6.eqs.append(L6.lin(lv).add(L6.lin(n), -1))
+            if lin.inconsistent(L6):
+                o.status = True
+                o.why = "INV-COUNT: the vector grows by a constant amount per iteration of a loop that ran to completion; the failing branch is infeasible"
                 return True
         o.status, o.why = False, "an explicit panic is reachable under input-dependent conditions: %s" % sorted(Q.show_fact(f, 2)[:80] for f in facts)[:4]
         return False
@@ -642,7 +654,13 @@ def _paired(eng, V, K, exact=False):
 
 
 def _inv_count(eng, o, terms):
+    """equalities len(V) == initial + per * iterations for a vector V that is grown by exactly one push (per = 1) or one
+    append of a constant number of bytes per iteration of a loop that runs to completion (counted range lo..hi, or a
+    complete traversal of a collection C: iterations = len(C)), valid at sites after the loop"""
+    from .terms import Int
     out = []
+    L0 = lin.Ctx(64)
+    L0.repr_len = eng.size_of("share_ff::FpRepr", "star_sharks")
     for t in terms:
         for ln in Q.find_all(t, lambda x: x.op == "len" and x.args[0].op == "phi"):
             V = ln.args[0]
@@ -656,37 +674,63 @@ def _inv_count(eng, o, terms):
             cfg = fr.cfg
             inc = PHI.get(V.args[0]) or {}
             ent = [v for p, v in inc.items() if not (isinstance(p, int) and cfg.dominates(head, p))]
-            if len(ent) != 1 or ent[0].op != "vec_new":
+            if len(ent) != 1:
+                continue
+            init_len = L0._struct_len(ent[0])
+            if init_len is None or not init_len.is_const():
                 continue
             loc = V.args[0][2]
-            # the loop is driven by Iterator::next on a counted range, evaluated in the loop head region
+            # the loop is driven by Iterator::next, evaluated in the loop head region
             nxt = [e for e in eng.events.values() if e["kind"] == "call" and e["frame"] == fkey and (e.get("dname") or "").endswith("Iterator::next")
                    and cfg.dominates(head, e["block"]) and head in cfg.reachable_from(e["block"])]
             if len(nxt) != 1 or nxt[0]["result"] is None:
                 continue
             some = Q.variant(nxt[0]["result"], 1)
-            if not some or not some[2] or some[2][0].op != "range_elem":
+            if not some or not some[2]:
                 continue
-            lo, hi = some[2][0].args[0], some[2][0].args[1]
-            # body = blocks on the Some edge; every path from the Some successor back to the head passes the single push,
-            # nothing else mutates the vector, and the loop has no exit other than the None edge of next()
+            el = some[2][0]
+            if el.op == "range_elem":
+                lo, hi = el.args[0], el.args[1]
+                count = mk("sub", hi, lo, "usize") if not (lo.op == "int" and lo.args[0] == 0) else hi
+            else:
+                # a complete traversal of a collection: as many iterations as it has elements
+                # (the collection actually iterated - a loop-built vector counts as itself, not as an image of its source)
+                src = Q.whole_of(nxt[0]["argv"][0]) if nxt[0]["argv"] and nxt[0]["argv"][0] is not None else None
+                if src is None:
+                    continue
+                count = mk("len", src)
+            # body = blocks on the Some edge; every path from the Some successor back to the head passes the single growth
+            # call, nothing else mutates the vector, and the loop has no exit other than the None edge of next()
             from .models import _is_mut_arg
             muts = []
             for e in eng.events.values():
                 if e["kind"] != "call" or e["frame"] != fkey:
                     continue
+                if not (e["block"] in cfg.reachable_from(head) and head in cfg.reachable_from(e["block"])):
+                    continue      # before / after the loop: part of the entry value or a later use
                 for i, a in enumerate(e["args"]):
                     if a.op == "ref" and a.args[0] == loc and _is_mut_arg({"term": fr.fn.blocks[e["block"]]["t"], "frame": fr}, i):
                         muts.append(e)
-            if len(muts) != 1 or not (muts[0].get("callee") or "").endswith("::push"):
+            if len(muts) != 1:
                 continue
             push = muts[0]
-            sw = eng.switch_terms.get((fkey, nxt[0]["block"] if False else None))
+            callee = push.get("callee") or ""
+            if callee.endswith("::push"):
+                per = 1
+            elif callee.endswith("::extend_from_slice") and len(push["argv"]) > 1 and push["argv"][1] is not None:
+                pl = L0._struct_len(push["argv"][1])
+                if pl is None or not pl.is_const():
+                    continue
+                per = int(pl.c)
+            else:
+                continue
             # find the switch on the discriminant of next()'s result
             some_succ = none_succ = None
+            sw_block = None
             for b in cfg.rpo:
                 st_ = eng.switch_terms.get((fkey, b))
                 if st_ is not None and st_[0].op == "discr" and st_[0].args[0] is nxt[0]["result"]:
+                    sw_block = b
                     for v, tb in st_[1]:
                         if int(v) == 1:
                             some_succ = tb
@@ -695,13 +739,22 @@ def _inv_count(eng, o, terms):
             if some_succ is None or none_succ is None:
                 continue
             if head in cfg.reachable_from(some_succ, avoid=(push["block"],)):
-                continue          # a path around the push
+                continue          # a path around the growth call
+            if any(push["block"] in cfg.reachable_from(s_, avoid=(head,)) for s_ in cfg.succ[push["block"]]):
+                continue          # the growth call sits in a nested loop
             body = {b for b in cfg.reachable_from(some_succ) if head in cfg.reachable_from(b)}
             exits = [b for b in body for s_ in cfg.succ[b] if s_ not in body and s_ != head and s_ != none_succ]
             returns_in_body = [b for b in cfg.reachable_from(some_succ, avoid=(head,)) if "return" in fr.fn.blocks[b]["t"]]
             if exits or returns_in_body:
                 continue          # break / early return: the count is only an upper bound
-            # the use must be after the loop (not dominated by the Some edge)
-            n = mk("sub", hi, lo, "usize") if not (lo.op == "int" and lo.args[0] == 0) else hi
+            # the use must be after the loop: its block (lifted into the loop's frame) is reached only through the None edge
+            # (a use in another frame sees the value only after the loop's frame returned through the loop exit)
+            ob = eng._lift(o.frame, o.block, fkey)
+            if ob is not None and not cfg.edge_dominates(sw_block, none_succ, ob):
+                continue
+            if per == 1 and init_len.c == 0:
+                n = count
+            else:
+                n = mk("add", Int(int(init_len.c)), mk("mul", Int(per), count, "usize"), "usize")
             out.append((ln, n))
     return out
